@@ -321,7 +321,7 @@ func init() {
 		return &fw.Prop{
 			ID:          "C18",
 			Level:       "exploration",
-			Rule:        "cases = (identifier string, repetitions): identifiers generated from the plonky2 Debug formats over the supported gate types and parameter ranges (incl. those of the real common data), identifiers of unimplemented gates (lookup, lookup-table, the Debug formats of the gadget gates under /repo/crypto/plonky2_u32, wrong extension degree D, malformed strings); each identifier is resolved >=200 times (>=2000 thorough) in this process to sweep Go's randomised map iteration order, and again from 16 goroutines under the race detector (separate -race build). Oracle: the reference identifier parser — supported => every resolution yields the same gate type with exactly the stated numbers (read back from Gate.Id()); unsupported => every resolution panics. 'hiding' cases: ReadCommonCircuitData on the real documents with hiding=true must panic. Non-trivial = every identifier (distinct strings).",
+			Rule:        "cases = (identifier string, repetitions): identifiers generated from the plonky2 Debug formats over the supported gate types and parameter ranges (incl. those of the real common data), identifiers of unimplemented gates (lookup, lookup-table, the Debug formats of the gadget gates under /repo/crypto/plonky2_u32, wrong extension degree D, malformed strings); each identifier is resolved >=200 times (>=2000 thorough) in this process to sweep Go's randomised map iteration order, and again from 16 goroutines under the race detector (separate -race build). Oracle: the reference identifier parser — supported => every resolution yields the same gate type with exactly the stated numbers (read back from Gate.Id()); unsupported => every resolution panics. 'hiding' cases: ReadCommonCircuitData on the real documents with hiding=true must panic. Non-trivial = every identifier (distinct strings). Also: every stated extension degree other than 2, descriptions with both hiding flags set, and descriptions listing an unimplemented gate in the middle or at the end of the gate list (refused at the latest when the circuit is defined).",
 			Assumptions: []string{"gate behaviour for a resolved identifier is C15's subject; here the resolved type and numbers are read from Gate.Id()"},
 			MinEvents:   10000,
 			Setup:       func(ctx *fw.Ctx) error { return refSelfTest(false) },
